@@ -92,9 +92,36 @@ func c01Fault(c c01Case) *Outcome {
 	}
 	e := modelScript(s)
 	if c.Fault == "lost-reply" {
+		cutAt := c.FaultAt
+		if c.FaultOnBnd && s.Kind == kUnary && e.Code == codes.OK && len(e.Msgs) == 1 {
+			// inside the reply body, on a field boundary of the response: what has arrived decodes on its own
+			total := 0
+			runScript(s, c.Carrier, carrierOpts{WrapConn: func(nc net.Conn) net.Conn { return &countConn{Conn: nc, n: &total} }})
+			body := mustMarshal(s.Resps[s.UnaryResp].Build())
+			var bounds []int
+			for off := 0; off < len(body); {
+				_, _, n := protowire.ConsumeField(body[off:])
+				if n <= 0 {
+					break
+				}
+				bounds = append(bounds, off)
+				off += n
+			}
+			if len(bounds) > 0 && total > len(body) {
+				cutAt = total - len(body) + bounds[c.FaultAt%len(bounds)]
+				o.class("lost-reply/cut-on-a-field-boundary-of-the-response")
+			}
+		}
 		obs := runScript(s, c.Carrier, carrierOpts{WrapConn: func(nc net.Conn) net.Conn {
-			return &cutConn{Conn: nc, remaining: c.FaultAt, abrupt: c.FaultReset, afterReply: true}
+			return &cutConn{Conn: nc, remaining: cutAt, abrupt: c.FaultReset, afterReply: true}
 		}})
+		if len(obs.Recvs) > 0 && obs.Recvs[0].Err == "" && s.Kind == kUnary && cutAt > 400 {
+			// (reported below through the prefix rule as well; said here in the case's own terms)
+			if string(obs.Recvs[0].Msg) != string(e.Msgs[0]) {
+				o.Observed = obs
+				return o.failf("%s/unary: reply cut after %d bytes, inside the response message: the caller was handed a response (%d bytes) that is not the one the handler returned (%d bytes)", c.Carrier, cutAt, len(obs.Recvs[0].Msg), len(e.Msgs[0]))
+			}
+		}
 		o.Observed = obs
 		if len(obs.Panics) > 0 {
 			return o.failf("%s/%s: reply cut after %d bytes: panic %s", c.Carrier, s.Kind, c.FaultAt, obs.Panics[0])
@@ -636,7 +663,7 @@ func genC01(t *rapid.T) c01Case {
 		c := c01Case{Carrier: rapid.SampledFrom([]string{cHTTP, cHTTPMux, cHTTPPer}).Draw(t, "fcarrier")}
 		c.Fault = rapid.SampledFrom([]string{"lost-reply", "short-request"}).Draw(t, "faultkind")
 		fs := genScript(t, scriptGenOpts{MaxMsg: 6000, MDKeys: 0, FewOps: true, NoEarly: true, PlainStatus: true, OnlyKinds: []string{kUnary, kUnary, kUnary, kServerStream, kClientStream, kBidi}})
-		fs.Spoof, fs.Deadline, fs.OptReuse, fs.RegAllBidi, fs.Chunked = 0, false, false, false, false
+		fs.Spoof, fs.Deadline, fs.OptReuse, fs.RegAllBidi, fs.Chunked, fs.PreSendHdr = 0, false, false, false, false, false
 		for i := range fs.Reqs {
 			fs.Reqs[i].Anys, fs.Reqs[i].Unknown = nil, nil
 		}
@@ -645,6 +672,10 @@ func genC01(t *rapid.T) c01Case {
 			// mostly right at the start of the reply: the handler has run, the client has seen nothing (or little) of it
 			c.FaultAt = rapid.SampledFrom([]int{0, 0, 0, 0, 1, 12, 17, 40, 120, 400}).Draw(t, "faultat")
 			c.FaultReset = rapid.IntRange(0, 2).Draw(t, "faultreset") == 0
+			c.FaultOnBnd = rapid.Bool().Draw(t, "faultonbnd")
+			if c.FaultOnBnd {
+				c.FaultAt = rapid.IntRange(0, 50).Draw(t, "faultbnd")
+			}
 		} else {
 			c.FaultAt = rapid.IntRange(0, 6000).Draw(t, "faultat")
 			c.FaultOnBnd = rapid.IntRange(0, 3).Draw(t, "faultbnd") > 0
